@@ -453,12 +453,12 @@ func firstLines(s string, n int) string {
 
 func writeEvidence(o SuperOpts, p *Prop, a *Agg, nviol int, wall float64, finishErr error, infra []string) error {
 	cov := map[string]any{
-		"evaluations":         a.Evals,
-		"distinct_nontrivial": a.DistinctNontrivial(),
-		"rule":                p.Rule,
-		"batches":             a.Batches,
+		"evaluations":          a.Evals,
+		"distinct_nontrivial":  a.DistinctNontrivial(),
+		"rule":                 p.Rule,
+		"batches":              a.Batches,
 		"child_processes_died": a.Died,
-		"inconclusive":        a.Inconclusive,
+		"inconclusive":         a.Inconclusive,
 	}
 	samples := []any{}
 	for _, s := range a.Samples {
